@@ -85,6 +85,22 @@ def main():
         "not modelled: metrics, logging, the nil-duty error branch, context cancellation",
     ]
     R.proofs()
+    # application wiring (app/app.go), regenerated from the source on every run: translator/appwire -> coq/gen/AppWiring.v
+    rc_t, out_t = vp.run_translator("appwire", "AppWiring.v")
+    R.coverage["translator_appwire"] = out_t.strip().splitlines()[-1] if out_t.strip() else "rc=%d" % rc_t
+    if rc_t != 0:
+        R.broke("translator:appwire failed on %s/app/app.go (a construction shape it can not interpret; obligation C20_app_cache_invalidated_on_reorg)" % vp.REPO, out_t[-3000:])
+    vp.sub_proofs(R, "C20_app", "app")
+    rp = os.environ.get("VERIF_REPLAY", "")
+    if rp:
+        try:
+            reorg_replay = str(json.load(open(rp)).get("key", "")).startswith("reorg:")
+        except Exception:
+            reorg_replay = False
+        if reorg_replay:  # a replay of the reorg side: only that part runs
+            import sse_reorg
+            sse_reorg.run(R)
+            R.finish()
     n = 10000 if R.thorough else 400
     rc, out, od = vp.go_harness("cache", env_extra={"VERIF_N": n})
     if rc != 0:
@@ -197,4 +213,10 @@ def main():
         R.notes.append("reading note N3 (outside the property: requests that are not index sets): in %d histories a request naming an index twice on the amend path "
                        "made the real cache hold that validator's duties twice; the model predicts exactly this (traces accepted); e.g. %s" % (ndup, json.dumps(dup_sample)))
     R.coverage["traces_validated_against_impl"] = len(hs)
+    # reorg side: the epoch InvalidateCache is told for a chain_reorg event (app/sse listener): props/sse_reorg.py
+    try:
+        import sse_reorg
+        sse_reorg.run(R)
+    except ImportError:
+        pass
     R.finish()
